@@ -20,6 +20,7 @@
 #include "panda_getopt_long.h"
 #include "preprocess_argv.h"
 #include "verif_trace.h"
+#include "verif_idb_json.h"
 #include <time.h>
 
 using std::cerr;
@@ -699,7 +700,7 @@ main(int argc, char **argv) {
       nout << "Unable to write to " << output_data_filename << "\n";
       status = -1;
     } else {
-      VERIF_EVENT("{\"e\":\"BuildDone\"}");
+      VERIF_BUILD_EVENT("{\"e\":\"BuildDone\"}");
       InterrogateDatabase::get_ptr()->write(output_data, def);
 
       output_data.close();
